@@ -367,3 +367,31 @@ def write_evidence(check, prop, tier, seed, results, wall, nviol, known_hits, wa
         json.dump(ev, f, indent=1, default=rng._default)
     os.replace(tmp, path)
     return path
+
+
+def print_digests(check, runs, repeat=1):
+    """Determinism aid: print one line `DIGEST <run> <digest>` per run (executed `repeat` times in-process)."""
+    seed = rng.base_seed()
+    bad = 0
+    for r in runs:
+        ds = []
+        for _ in range(repeat):
+            case = check.generate(seed, r)
+            oc = check.execute(case)
+            ds.append(oc.digest())
+        if len(set(ds)) != 1:
+            bad += 1
+            print("NONDETERMINISTIC run=%d digests=%s" % (r, ds), flush=True)
+        print("DIGEST %d %s %s" % (r, ds[0], rng.digest(case)), flush=True)
+    return 1 if bad else 0
+
+
+def parse_runs(text):
+    out = []
+    for part in text.split(","):
+        if "-" in part:
+            a, b = part.split("-")
+            out.extend(range(int(a), int(b) + 1))
+        else:
+            out.append(int(part))
+    return out
